@@ -115,6 +115,59 @@ def job_facade_gas(job):
     job.prove("facade-gas/reach", dom, expect="sat")
 
 
+from ..harness import replay_crosshair  # noqa: E402,F401  (looked up in this module by --replay)
+
+CH_HEADER = '''import sys
+sys.path.insert(0, "{SRC}")
+from bluebonnet.fluids.gas import pseudocritical_point_Sutton, make_nonhydrocarbon_properties
+from bluebonnet.fluids.fluid import build_pvt_gas
+NONHC = make_nonhydrocarbon_properties(0.01, 0.02, 0.03)
+GAS = {"N2": 0.01, "H2S": 0.02, "CO2": 0.03, "Gas Specific Gravity": 0.7, "Reservoir Temperature (deg F)": 200.0}
+
+
+'''
+CH_FUNCS = {
+    "unknown_fluid_rejected": '''def unknown_fluid_rejected(fluid: str) -> bool:
+    """
+    pre: fluid != "dry gas" and fluid != "wet gas"
+    pre: len(fluid) <= 9
+    post: _ == True
+    """
+    try:
+        pseudocritical_point_Sutton(0.7, NONHC, fluid)
+    except ValueError:
+        return True
+    return False
+''',
+    "unknown_fluid_rejected_by_builder": '''def unknown_fluid_rejected_by_builder(fluid: str) -> bool:
+    """
+    pre: fluid != "dry gas" and fluid != "wet gas"
+    pre: len(fluid) <= 9
+    post: _ == True
+    """
+    try:
+        build_pvt_gas(GAS, fluid, 35.0)
+    except ValueError:
+        return True
+    return False
+''',
+}
+
+
+def job_unknown_fluid(job):
+    """'an unknown fluid type is rejected' for every string of up to 9 characters other than the two accepted names
+    (the fluid type is a string: CrossHair executes the unmodified functions on a symbolic str)."""
+    import bluebonnet.fluids.gas as rg
+    job.functions["bluebonnet/fluids/gas.py::pseudocritical_point_Sutton"] = __import__("hashlib").sha256(
+        __import__("inspect").getsource(rg.pseudocritical_point_Sutton).encode()).hexdigest()[:16]
+    job.stub("none (CrossHair runs the unmodified functions with the real numpy; only the string argument is symbolic)")
+    job.bound(unknown_fluid="every str of length <= 9 other than 'dry gas' / 'wet gas'")
+    # one condition per run: CrossHair's per-condition budget is CPU time
+    for fn, body in CH_FUNCS.items():
+        src = CH_HEADER + body
+        job.crosshair(f"sutton/{fn.replace('_', ' ')}", src, fn, bound="str of length <= 9", timeout=60 if job.tier == "quick" else 240)
+
+
 def job_facade(job):
     mod, gas, ufs = load_fluid_with_ufs()
     job.encoded(mod, "Fluid.water_FVF", "Fluid.water_viscosity", "Fluid.gas_FVF", "Fluid.gas_viscosity", "Fluid.oil_FVF",
@@ -290,8 +343,12 @@ def replay_unknown_fluid(model):
     return True, {"what": "fluid='condensate' accepted"}
 
 
+def _jobs_extra():
+    return [("unknown-fluid", job_unknown_fluid)]
+
+
 def jobs(tier):
-    out = [("facade", job_facade), ("table45", lambda j: job_table(j, 45)), ("sutton", job_sutton)]
+    out = [("facade", job_facade), ("table45", lambda j: job_table(j, 45)), ("sutton", job_sutton), ("unknown-fluid", job_unknown_fluid)]
     if tier != "quick":
         out.append(("table75", lambda j: job_table(j, 75)))
         out.append(("table50", lambda j: job_table(j, 50)))
